@@ -141,17 +141,17 @@ impl MDBFileInfo {
             invariant
                 file_info_wf(*self), nn == self.metadata.num_entries, p == w0.len(), w0 == *old(writer),
                 refs_of(vx_it1.seq(), self.segments@),
-                bytes_written == 48 + 48 * vx_it1.index@, writer.len() == p + bytes_written, keeps(w0, *writer),
-                decodes(writer.out@, p, Tok::FileHdr(self.metadata)),
-                forall|j: int| 0 <= j < vx_it1.index@ ==> decodes(writer.out@, p + 48 + 48 * j, Tok::FileEntry(#[trigger] self.segments@[j])),
+                /*@C09*/ bytes_written == 48 + 48 * vx_it1.index@, writer.len() == p + bytes_written, keeps(w0, *writer),
+                /*@C09*/ decodes(writer.out@, p, Tok::FileHdr(self.metadata)),
+                /*@C09*/ forall|j: int| 0 <= j < vx_it1.index@ ==> decodes(writer.out@, p + 48 + 48 * j, Tok::FileEntry(#[trigger] self.segments@[j])),
 //@ loop 2
                 invariant
                     file_info_wf(*self), nn == self.metadata.num_entries, p == w0.len(), w0 == *old(writer), has_verif(self.metadata),
                     refs_of(vx_it2.seq(), self.verification@),
-                    bytes_written == 48 + 48 * nn + 48 * vx_it2.index@, writer.len() == p + bytes_written, keeps(w0, *writer),
-                    decodes(writer.out@, p, Tok::FileHdr(self.metadata)),
-                    forall|j: int| 0 <= j < nn ==> decodes(writer.out@, p + 48 + 48 * j, Tok::FileEntry(#[trigger] self.segments@[j])),
-                    forall|j: int| 0 <= j < vx_it2.index@ ==> decodes(writer.out@, p + 48 + 48 * nn + 48 * j, Tok::Verif(#[trigger] self.verification@[j])),
+                    /*@C09*/ bytes_written == 48 + 48 * nn + 48 * vx_it2.index@, writer.len() == p + bytes_written, keeps(w0, *writer),
+                    /*@C09*/ decodes(writer.out@, p, Tok::FileHdr(self.metadata)),
+                    /*@C09*/ forall|j: int| 0 <= j < nn ==> decodes(writer.out@, p + 48 + 48 * j, Tok::FileEntry(#[trigger] self.segments@[j])),
+                    /*@C09*/ forall|j: int| 0 <= j < vx_it2.index@ ==> decodes(writer.out@, p + 48 + 48 * nn + 48 * j, Tok::Verif(#[trigger] self.verification@[j])),
 //@ end
 }
 
@@ -262,8 +262,8 @@ spec fn conv_file_post(s: Seq<(MerkleHash, MDBFileInfo)>, w0: VxW, w1: VxW, keys
 proof fn lemma_conv_file_done(s: Seq<(MerkleHash, MDBFileInfo)>, m: Map<MerkleHash, MDBFileInfo>, w0: VxW, wb: VxW, w1: VxW,
         keys: Seq<u64>, vals: Seq<u32>, index: int)
     requires
-        is_entries(s, m), files_ok(m), conv_file_inv(s, w0, wb, keys, vals, index, s.len() as int),
-        keeps(wb, w1), w1.len() == wb.len() + 48, file_hdr_at(w1.out@, wb.len()).file_hash == bookend_hash(),
+        /*@C09*/ is_entries(s, m), files_ok(m), conv_file_inv(s, w0, wb, keys, vals, index, s.len() as int),
+        /*@C09*/ keeps(wb, w1), w1.len() == wb.len() + 48, file_hdr_at(w1.out@, wb.len()).file_hash == bookend_hash(),
     ensures conv_file_post(s, w0, w1, keys, vals, 48 * index + 48),
 {
     let sec = file_hdrs(s); let p0 = w0.len(); let cnt = s.len() as int;
@@ -305,11 +305,11 @@ impl MDBShardInfo {
                 forall|s: Seq<(MerkleHash, MDBFileInfo)>| #[trigger] is_entries(s, m) ==> file_pos(0, file_hdrs(s), s.len() as int) + 48 <= 48 * 0xFFFF_FFFF,
                 forall|r: Seq<(&MerkleHash, &MDBFileInfo)>| #[trigger] iter_entries(r, m) ==> is_entries(own(r), m),
                 iter_entries(vx_it1.seq(), m),
-                bytes_written == 48 * index,
-                conv_file_inv(own(vx_it1.seq()), w0, *writer, file_lookup_keys@, file_lookup_vals@, index as int, vx_it1.index@ as int),
+                /*@C09*/ bytes_written == 48 * index,
+                /*@C09*/ conv_file_inv(own(vx_it1.seq()), w0, *writer, file_lookup_keys@, file_lookup_vals@, index as int, vx_it1.index@ as int),
             ensures
-                bytes_written == 48 * index,
-                exists|s: Seq<(MerkleHash, MDBFileInfo)>| #[trigger] is_entries(s, m)
+                /*@C09*/ bytes_written == 48 * index,
+                /*@C09*/ exists|s: Seq<(MerkleHash, MDBFileInfo)>| #[trigger] is_entries(s, m)
                     && conv_file_inv(s, w0, *writer, file_lookup_keys@, file_lookup_vals@, index as int, s.len() as int),
 //@ before `let bytes = content.serialize(writer)?;`
             proof {
@@ -458,7 +458,7 @@ proof fn lemma_sorted_pairs(s: Seq<(MerkleHash, Arc<MDBCASInfo>)>, p0: int, fk: 
 }
 
 proof fn lemma_chunk_pairs_push(s: Seq<(MerkleHash, Arc<MDBCASInfo>)>, p0: int, fk: Seq<u64>, fv: Seq<(u32, u32)>, nb: int, nj: int, key: u64, val: (u32, u32))
-    requires chunk_pairs(s, p0, fk, fv, nb, nj), 0 <= nb < s.len(), 0 <= nj < s[nb].1.chunks@.len(), names_chunk(s, p0, key, val, nb, nj),
+    requires /*@C09,C05*/ chunk_pairs(s, p0, fk, fv, nb, nj), 0 <= nb < s.len(), 0 <= nj < s[nb].1.chunks@.len(), names_chunk(s, p0, key, val, nb, nj),
     ensures chunk_pairs(s, p0, fk.push(key), fv.push(val), nb, nj + 1),
 {
     let k2 = fk.push(key); let v2 = fv.push(val);
@@ -526,8 +526,8 @@ spec fn chunk_table_post(s: Seq<(MerkleHash, Arc<MDBCASInfo>)>, p0: int, hk: Seq
 proof fn lemma_conv_cas_done(s: Seq<(MerkleHash, Arc<MDBCASInfo>)>, m: Map<MerkleHash, Arc<MDBCASInfo>>, w0: VxW, wb: VxW, w1: VxW,
         keys: Seq<u64>, vals: Seq<u32>, index: int)
     requires
-        is_entries(s, m), cas_ok(m), conv_cas_inv(s, w0, wb, keys, vals, index, s.len() as int),
-        keeps(wb, w1), w1.len() == wb.len() + 48, cas_hdr_at(w1.out@, wb.len()).cas_hash == bookend_hash(),
+        /*@C09,C05*/ is_entries(s, m), cas_ok(m), conv_cas_inv(s, w0, wb, keys, vals, index, s.len() as int),
+        /*@C09,C05*/ keeps(wb, w1), w1.len() == wb.len() + 48, cas_hdr_at(w1.out@, wb.len()).cas_hash == bookend_hash(),
     ensures conv_cas_post(s, w0, w1, keys, vals, 48 * index + 48),
 {
     let sec = cas_hdrs(s); let p0 = w0.len(); let cnt = s.len() as int;
@@ -548,9 +548,9 @@ proof fn lemma_chunk_table(s: Seq<(MerkleHash, Arc<MDBCASInfo>)>, p0: int, fk: S
         c0: Seq<(&u64, &(u32, u32))>, c: Seq<(&u64, &(u32, u32))>, sk: Seq<u64>, sv: Seq<(u32, u32)>)
     requires
         chunk_pairs(s, p0, fk, fv, s.len() as int, 0),
-        deref_pairs(c0) == pairs_of(fk, fv), deref_pairs(c).to_multiset() == deref_pairs(c0).to_multiset(),
-        forall|a: int, b: int| 0 <= a <= b < c.len() ==> *(#[trigger] c[a]).0 <= *(#[trigger] c[b]).0,
-        keys_collected(sk, c), vals_collected(sv, c),
+        /*@C09,C05*/ deref_pairs(c0) == pairs_of(fk, fv), deref_pairs(c).to_multiset() == deref_pairs(c0).to_multiset(),
+        /*@C09,C05*/ forall|a: int, b: int| 0 <= a <= b < c.len() ==> *(#[trigger] c[a]).0 <= *(#[trigger] c[b]).0,   // the table is ordered
+        /*@C09,C05*/ keys_collected(sk, c), vals_collected(sv, c),
     ensures chunk_table_post(s, p0, sk, sv),
 {
     assert(pairs_of(sk, sv) =~= deref_pairs(c));
@@ -590,12 +590,12 @@ impl MDBShardInfo {
                 forall|s: Seq<(MerkleHash, Arc<MDBCASInfo>)>| #[trigger] is_entries(s, m) ==> cas_pos(0, cas_hdrs(s), s.len() as int) + 48 <= 48 * 0xFFFF_FFFF,
                 forall|r: Seq<(&MerkleHash, &Arc<MDBCASInfo>)>| #[trigger] iter_entries(r, m) ==> is_entries(own(r), m),
                 iter_entries(vx_it1.seq(), m),
-                bytes_written == 48 * index,
-                conv_cas_inv(own(vx_it1.seq()), w0, *writer, cas_lookup_keys@, cas_lookup_vals@, index as int, vx_it1.index@ as int),
-                chunk_pairs(own(vx_it1.seq()), p0, chunk_lookup_keys@, chunk_lookup_vals@, vx_it1.index@ as int, 0),
+                /*@C09,C05*/ bytes_written == 48 * index,
+                /*@C09,C05*/ conv_cas_inv(own(vx_it1.seq()), w0, *writer, cas_lookup_keys@, cas_lookup_vals@, index as int, vx_it1.index@ as int),
+                /*@C09,C05*/ chunk_pairs(own(vx_it1.seq()), p0, chunk_lookup_keys@, chunk_lookup_vals@, vx_it1.index@ as int, 0),
             ensures
-                bytes_written == 48 * index,
-                exists|s: Seq<(MerkleHash, Arc<MDBCASInfo>)>| #[trigger] is_entries(s, m)
+                /*@C09,C05*/ bytes_written == 48 * index,
+                /*@C09,C05*/ exists|s: Seq<(MerkleHash, Arc<MDBCASInfo>)>| #[trigger] is_entries(s, m)
                     && conv_cas_inv(s, w0, *writer, cas_lookup_keys@, cas_lookup_vals@, index as int, s.len() as int)
                     && chunk_pairs(s, p0, chunk_lookup_keys@, chunk_lookup_vals@, s.len() as int, 0),
 //@ before `bytes_written += content.metadata.serialize(writer)?;`
@@ -613,15 +613,15 @@ impl MDBShardInfo {
                     iter_entries(vx_it1.seq(), m), is_entries(own(vx_it1.seq()), m),
                     0 <= vx_it1.index@ < vx_it1.seq().len(), *content == own(vx_it1.seq())[vx_it1.index@ as int].1, cas_info_wf(**content),
                     keeps(w0, *writer), keeps(ws, *writer), ws.len() == p0 + 48 * index,
-                    writer.len() == p0 + bytes_written, bytes_written == 48 * index + 48 + 48 * i,
-                    p0 + 48 * index == cas_pos(p0, cas_hdrs(own(vx_it1.seq())), vx_it1.index@ as int),
+                    /*@C09,C05*/ writer.len() == p0 + bytes_written, bytes_written == 48 * index + 48 + 48 * i,
+                    /*@C09,C05*/ p0 + 48 * index == cas_pos(p0, cas_hdrs(own(vx_it1.seq())), vx_it1.index@ as int),
                     p0 + 48 * index + 48 + 48 * content.chunks@.len() + 48 <= p0 + 48 * 0xFFFF_FFFF,
-                    decodes(writer.out@, p0 + 48 * index, Tok::CasHdr(content.metadata)),
-                    forall|j: int| 0 <= j < i ==> decodes(writer.out@, p0 + 48 * index + 48 + 48 * j, Tok::CasEntry(#[trigger] content.chunks@[j])),
-                    conv_cas_inv(own(vx_it1.seq()), w0, ws, cas_lookup_keys@.drop_last(), cas_lookup_vals@.drop_last(), index as int, vx_it1.index@ as int),
+                    /*@C09,C05*/ decodes(writer.out@, p0 + 48 * index, Tok::CasHdr(content.metadata)),
+                    /*@C09,C05*/ forall|j: int| 0 <= j < i ==> decodes(writer.out@, p0 + 48 * index + 48 + 48 * j, Tok::CasEntry(#[trigger] content.chunks@[j])),
+                    /*@C09,C05*/ conv_cas_inv(own(vx_it1.seq()), w0, ws, cas_lookup_keys@.drop_last(), cas_lookup_vals@.drop_last(), index as int, vx_it1.index@ as int),
                     cas_lookup_keys@.len() == vx_it1.index@ + 1, cas_lookup_vals@.len() == vx_it1.index@ + 1,
-                    cas_lookup_keys@.last() == spec_truncate(own(vx_it1.seq())[vx_it1.index@ as int].0), cas_lookup_vals@.last() == index,
-                    chunk_pairs(own(vx_it1.seq()), p0, chunk_lookup_keys@, chunk_lookup_vals@, vx_it1.index@ as int, i as int),
+                    /*@C09,C05*/ cas_lookup_keys@.last() == spec_truncate(own(vx_it1.seq())[vx_it1.index@ as int].0), cas_lookup_vals@.last() == index,
+                    /*@C09,C05*/ chunk_pairs(own(vx_it1.seq()), p0, chunk_lookup_keys@, chunk_lookup_vals@, vx_it1.index@ as int, i as int),
 //@ before `chunk_lookup_keys.push(truncate_hash(&chunk.chunk_hash));`
                 let ghost fk0 = chunk_lookup_keys@; let ghost fv0 = chunk_lookup_vals@;
 //@ after `chunk_lookup_vals.push((index, i as u32));`
@@ -641,7 +641,7 @@ impl MDBShardInfo {
                     lemma_cas_pos_mono(p0, sec, 0, k);
                     lemma_cas_block_keeps(ws, *writer, cas_pos(p0, sec, k), *s[k].1);
                 }
-                assert(cas_block_ok(writer.out@, cas_pos(p0, sec, bi), *s[bi].1));
+                /*@C09,C05*/ assert(cas_block_ok(writer.out@, cas_pos(p0, sec, bi), *s[bi].1));   // tagged: the block just written decodes to the in-memory xorb
                 lemma_chunk_pairs_next(s, p0, chunk_lookup_keys@, chunk_lookup_vals@, bi);
             }
 //@ before `bytes_written += CASChunkSequenceHeader::bookend()`
@@ -878,10 +878,10 @@ proof fn lemma_shard_done(sf: Seq<(MerkleHash, MDBFileInfo)>, sc: Seq<(MerkleHas
         wH: VxW, wF: VxW, wA: VxW, wB: VxW, wC: VxW, wD: VxW, w1: VxW,
         fk: Seq<u64>, fv: Seq<u32>, ck: Seq<u64>, cv: Seq<u32>, hk: Seq<u64>, hv: Seq<(u32, u32)>)
     requires
-        stage_a(sf, sc, mdb, sh, wH, wF, wA, fk, fv, ck, cv, hk, hv), stage_b(sh, wA, wB, fk, fv), stage_c(sh, wB, wC, ck, cv), stage_d(sh, wC, wD, hk, hv),
-        keeps(wD, w1), w1.len() == wD.len() + 200, footer_at(w1.out@, wD.len(), sh.metadata), sh.metadata.footer_offset == wD.len(),
-        sh.metadata.stored_bytes_on_disk == spec_stored_bytes_on_disk(mdb), sh.metadata.materialized_bytes == spec_materialized_bytes(mdb),
-        sh.metadata.stored_bytes == spec_stored_bytes(mdb),
+        /*@C09,C05*/ stage_a(sf, sc, mdb, sh, wH, wF, wA, fk, fv, ck, cv, hk, hv), stage_b(sh, wA, wB, fk, fv), stage_c(sh, wB, wC, ck, cv), stage_d(sh, wC, wD, hk, hv),
+        /*@C09,C05*/ keeps(wD, w1), w1.len() == wD.len() + 200, footer_at(w1.out@, wD.len(), sh.metadata), sh.metadata.footer_offset == wD.len(),
+        /*@C09*/ sh.metadata.stored_bytes_on_disk == spec_stored_bytes_on_disk(mdb), sh.metadata.materialized_bytes == spec_materialized_bytes(mdb),
+        /*@C09*/ sh.metadata.stored_bytes == spec_stored_bytes(mdb),
     ensures
         shard_post(sf, sc, mdb, sh, w1.out@, fk, fv, ck, cv, hk, hv),
         w1.len() == model_size(sf, sc),
@@ -981,51 +981,51 @@ impl MDBShardInfo {
             lemma_cas_count_le(wF.len(), sc, sc.len() as int);
         }
 //@ before `shard.metadata.file_lookup_num_entry = file_lookup_keys.len() as u64;`
-        proof { reveal(stage_a); assert(stage_a(sf, sc, *mdb, shard, wH, wF, wA, fk, fv, ck, cv, hk, hv)); }
+        proof { reveal(stage_a); /*@C09,C05*/ assert(stage_a(sf, sc, *mdb, shard, wH, wF, wA, fk, fv, ck, cv, hk, hv)); }
 //@ loop 1
             invariant_except_break
-                writer.len() == wA.len() + 12 * vx_z1,
-                forall|t: int| 0 <= t < vx_z1 ==> decodes(writer.out@, wA.len() + 12 * t, Tok::U64(#[trigger] fk[t])) && decodes(writer.out@, wA.len() + 12 * t + 8, Tok::U32(fv[t])),
+                /*@C09,C05*/ writer.len() == wA.len() + 12 * vx_z1,
+                /*@C09,C05*/ forall|t: int| 0 <= t < vx_z1 ==> decodes(writer.out@, wA.len() + 12 * t, Tok::U64(#[trigger] fk[t])) && decodes(writer.out@, wA.len() + 12 * t + 8, Tok::U32(fv[t])),
             invariant
-                stage_a(sf, sc, *mdb, shard, wH, wF, wA, fk, fv, ck, cv, hk, hv),
-                shard.metadata.file_lookup_offset == wA.len() && shard.metadata.file_lookup_num_entry == fk.len(),
+                /*@C09,C05*/ stage_a(sf, sc, *mdb, shard, wH, wF, wA, fk, fv, ck, cv, hk, hv),
+                /*@C09,C05*/ shard.metadata.file_lookup_offset == wA.len() && shard.metadata.file_lookup_num_entry == fk.len(),
                 fk.len() <= 0xFFFF_FFFF && ck.len() + hk.len() <= 0xFFFF_FFFF && wA.len() <= 48 + 96 * 0xFFFF_FFFF, fk.len() == fv.len(), ck.len() == cv.len(), hk.len() == hv.len(),
-                bytes_pos == wA.len(), file_lookup_keys@ == fk, file_lookup_vals@ == fv, cas_lookup_keys@ == ck, cas_lookup_vals@ == cv,
+                /*@C09,C05*/ bytes_pos == wA.len(), file_lookup_keys@ == fk, file_lookup_vals@ == fv, cas_lookup_keys@ == ck, cas_lookup_vals@ == cv,
                 chunk_lookup_keys@ == hk, chunk_lookup_vals@ == hv,
-                keeps(wA, *writer),
+                /*@C09,C05*/ keeps(wA, *writer),
             ensures
-                writer.len() == wA.len() + 12 * fk.len(), table12_at(writer.out@, wA.len(), fk, fv),
+                /*@C09,C05*/ writer.len() == wA.len() + 12 * fk.len(), table12_at(writer.out@, wA.len(), fk, fv),
 //@ before `drop(file_lookup_keys);`
-        proof { wB = *writer; reveal(stage_b); assert(stage_b(shard, wA, wB, fk, fv)); }
+        proof { wB = *writer; reveal(stage_b); /*@C09,C05*/ assert(stage_b(shard, wA, wB, fk, fv)); }
 //@ loop 2
             invariant_except_break
-                writer.len() == wB.len() + 12 * vx_z2,
-                forall|t: int| 0 <= t < vx_z2 ==> decodes(writer.out@, wB.len() + 12 * t, Tok::U64(#[trigger] ck[t])) && decodes(writer.out@, wB.len() + 12 * t + 8, Tok::U32(cv[t])),
+                /*@C09,C05*/ writer.len() == wB.len() + 12 * vx_z2,
+                /*@C09,C05*/ forall|t: int| 0 <= t < vx_z2 ==> decodes(writer.out@, wB.len() + 12 * t, Tok::U64(#[trigger] ck[t])) && decodes(writer.out@, wB.len() + 12 * t + 8, Tok::U32(cv[t])),
             invariant
-                stage_a(sf, sc, *mdb, shard, wH, wF, wA, fk, fv, ck, cv, hk, hv), stage_b(shard, wA, wB, fk, fv),
-                shard.metadata.cas_lookup_offset == wB.len() && shard.metadata.cas_lookup_num_entry == ck.len(),
+                /*@C09,C05*/ stage_a(sf, sc, *mdb, shard, wH, wF, wA, fk, fv, ck, cv, hk, hv), stage_b(shard, wA, wB, fk, fv),
+                /*@C09,C05*/ shard.metadata.cas_lookup_offset == wB.len() && shard.metadata.cas_lookup_num_entry == ck.len(),
                 fk.len() <= 0xFFFF_FFFF && ck.len() + hk.len() <= 0xFFFF_FFFF && wA.len() <= 48 + 96 * 0xFFFF_FFFF, wB.len() == wA.len() + 12 * fk.len(), ck.len() == cv.len(), hk.len() == hv.len(),
-                bytes_pos == wB.len(), cas_lookup_keys@ == ck, cas_lookup_vals@ == cv, chunk_lookup_keys@ == hk, chunk_lookup_vals@ == hv,
-                keeps(wB, *writer),
+                /*@C09,C05*/ bytes_pos == wB.len(), cas_lookup_keys@ == ck, cas_lookup_vals@ == cv, chunk_lookup_keys@ == hk, chunk_lookup_vals@ == hv,
+                /*@C09,C05*/ keeps(wB, *writer),
             ensures
-                writer.len() == wB.len() + 12 * ck.len(), table12_at(writer.out@, wB.len(), ck, cv),
+                /*@C09,C05*/ writer.len() == wB.len() + 12 * ck.len(), table12_at(writer.out@, wB.len(), ck, cv),
 //@ before `shard.metadata.chunk_lookup_offset = bytes_pos as u64;`
-        proof { wC = *writer; reveal(stage_c); assert(stage_c(shard, wB, wC, ck, cv)); }
+        proof { wC = *writer; reveal(stage_c); /*@C09,C05*/ assert(stage_c(shard, wB, wC, ck, cv)); }
 //@ loop 3
             invariant_except_break
-                writer.len() == wC.len() + 16 * vx_z3,
-                forall|t: int| 0 <= t < vx_z3 ==> decodes(writer.out@, wC.len() + 16 * t, Tok::U64(#[trigger] hk[t])) && decodes(writer.out@, wC.len() + 16 * t + 8, Tok::U32(hv[t].0))
+                /*@C09,C05*/ writer.len() == wC.len() + 16 * vx_z3,
+                /*@C09,C05*/ forall|t: int| 0 <= t < vx_z3 ==> decodes(writer.out@, wC.len() + 16 * t, Tok::U64(#[trigger] hk[t])) && decodes(writer.out@, wC.len() + 16 * t + 8, Tok::U32(hv[t].0))
                     && decodes(writer.out@, wC.len() + 16 * t + 12, Tok::U32(hv[t].1)),
             invariant
-                stage_a(sf, sc, *mdb, shard, wH, wF, wA, fk, fv, ck, cv, hk, hv), stage_b(shard, wA, wB, fk, fv), stage_c(shard, wB, wC, ck, cv),
-                shard.metadata.chunk_lookup_offset == wC.len() && shard.metadata.chunk_lookup_num_entry == hk.len(),
+                /*@C09,C05*/ stage_a(sf, sc, *mdb, shard, wH, wF, wA, fk, fv, ck, cv, hk, hv), stage_b(shard, wA, wB, fk, fv), stage_c(shard, wB, wC, ck, cv),
+                /*@C09,C05*/ shard.metadata.chunk_lookup_offset == wC.len() && shard.metadata.chunk_lookup_num_entry == hk.len(),
                 fk.len() <= 0xFFFF_FFFF && ck.len() + hk.len() <= 0xFFFF_FFFF && wA.len() <= 48 + 96 * 0xFFFF_FFFF, wB.len() == wA.len() + 12 * fk.len(), wC.len() == wB.len() + 12 * ck.len(), hk.len() == hv.len(),
-                bytes_pos == wC.len(), chunk_lookup_keys@ == hk, chunk_lookup_vals@ == hv,
-                keeps(wC, *writer),
+                /*@C09,C05*/ bytes_pos == wC.len(), chunk_lookup_keys@ == hk, chunk_lookup_vals@ == hv,
+                /*@C09,C05*/ keeps(wC, *writer),
             ensures
-                writer.len() == wC.len() + 16 * hk.len(), table16_at(writer.out@, wC.len(), hk, hv),
+                /*@C09,C05*/ writer.len() == wC.len() + 16 * hk.len(), table16_at(writer.out@, wC.len(), hk, hv),
 //@ before `shard.metadata.stored_bytes_on_disk = mdb.stored_bytes_on_disk();`
-        proof { wD = *writer; reveal(stage_d); assert(stage_d(shard, wC, wD, hk, hv)); }
+        proof { wD = *writer; reveal(stage_d); /*@C09,C05*/ assert(stage_d(shard, wC, wD, hk, hv)); }
 //@ before `Ok(shard)`
         proof {
             assert(stage_a(sf, sc, *mdb, shard, wH, wF, wA, fk, fv, ck, cv, hk, hv)) by { reveal(stage_a); }
@@ -1338,7 +1338,7 @@ impl MDBInMemoryShard {
             /*@C11,C09*/ final(self).file_content@ == old(self).file_content@.insert(file_info.metadata.file_hash, file_info),
             // the counter invariant is preserved, whether the hash is fresh or replaces a record
             /*@C09*/ final(self).counter_inv(),
-            final(self).cas_content@ == old(self).cas_content@, final(self).chunk_hash_lookup@ == old(self).chunk_hash_lookup@,
+            /*@AUX*/ final(self).cas_content@ == old(self).cas_content@, final(self).chunk_hash_lookup@ == old(self).chunk_hash_lookup@,
 //@ body-start
         proof {
             axiom_merklehash_total_order();
@@ -1364,7 +1364,7 @@ impl MDBInMemoryShard {
             /*@C11,C09*/ add_cas_counter_post(old(self).cas_content@, old(self).current_shard_file_size, final(self).cas_content@,
                                               final(self).current_shard_file_size, cas_block_contents),
             /*@C09*/ final(self).counter_inv(),
-            final(self).file_content@ == old(self).file_content@,
+            /*@AUX*/ final(self).file_content@ == old(self).file_content@,
 //@ body-start
         let ghost cas0 = self.cas_content@; let ghost size0 = self.current_shard_file_size; let ghost h = cas_block_contents.metadata.cas_hash;
         let ghost n = cas_block_contents.chunks@.len() as int;
@@ -1377,11 +1377,11 @@ impl MDBInMemoryShard {
 //@ loop 1
             invariant
                 *dest_content_v == cas_block_contents, n == cas_block_contents.chunks@.len(), n <= u32::MAX,
-                self.file_content@ == old(self).file_content@, self.cas_content@ == cas0.insert(h, dest_content_v),
+                /*@C11,C09*/ self.file_content@ == old(self).file_content@, self.cas_content@ == cas0.insert(h, dest_content_v),
                 cas0 == old(self).cas_content@, size0 == old(self).current_shard_file_size, h == cas_block_contents.metadata.cas_hash,
                 size0 + cas_contrib(cas_block_contents) <= u64::MAX,
                 cas0.contains_key(h) ==> size0 >= cas_contrib(*cas0[h]),
-                self.current_shard_file_size == size0 - (if cas0.contains_key(h) { cas_contrib(*cas0[h]) } else { 0 }) + 16 * i,
+                /*@C09*/ self.current_shard_file_size == size0 - (if cas0.contains_key(h) { cas_contrib(*cas0[h]) } else { 0 }) + 16 * i,
 //@ before `Ok(())`
         proof {
             lemma_msum_insert(cas0, cc(), h, dest_content_v);
@@ -1400,8 +1400,8 @@ impl MDBInMemoryShard {
         ensures
             // the recomputation establishes the counter invariant (it is what `union` / `difference` call)
             /*@C09*/ final(self).counter_inv(),
-            final(self).cas_content@ == old(self).cas_content@, final(self).file_content@ == old(self).file_content@,
-            final(self).chunk_hash_lookup@ == old(self).chunk_hash_lookup@,
+            /*@AUX*/ final(self).cas_content@ == old(self).cas_content@, final(self).file_content@ == old(self).file_content@,
+            /*@AUX*/ final(self).chunk_hash_lookup@ == old(self).chunk_hash_lookup@,
 //@ body-start
         let ghost cm = self.cas_content@; let ghost fm = self.file_content@;
         proof {
@@ -1425,8 +1425,8 @@ impl MDBInMemoryShard {
                 forall|r: Seq<(&MerkleHash, &Arc<MDBCASInfo>)>| #[trigger] iter_entries(r, cm) ==> is_entries(own(r), cm) && msum(cm, cc()) == ssum(own(r), cc(), r.len() as int),
                 forall|r: Seq<(&MerkleHash, &MDBFileInfo)>| #[trigger] iter_entries(r, fm) ==> is_entries(own(r), fm) && msum(fm, fc()) == ssum(own(r), fc(), r.len() as int),
                 iter_entries(vx_it1.seq(), cm),
-                num_bytes == ssum(own(vx_it1.seq()), cc(), vx_it1.index@ as int),
-            ensures num_bytes == msum(cm, cc()),
+                /*@C09*/ num_bytes == ssum(own(vx_it1.seq()), cc(), vx_it1.index@ as int),
+            ensures /*@C09*/ num_bytes == msum(cm, cc()),
 //@ before `num_bytes += cas_block_contents.num_bytes();`
             proof {
                 let s = own(vx_it1.seq()); let i = vx_it1.index@ as int;
@@ -1441,8 +1441,8 @@ impl MDBInMemoryShard {
                 forall|v: MDBFileInfo| #[trigger] fc()(v) >= 0,
                 forall|r: Seq<(&MerkleHash, &MDBFileInfo)>| #[trigger] iter_entries(r, fm) ==> is_entries(own(r), fm) && msum(fm, fc()) == ssum(own(r), fc(), r.len() as int),
                 iter_entries(vx_it2.seq(), fm),
-                num_bytes == msum(cm, cc()) + ssum(own(vx_it2.seq()), fc(), vx_it2.index@ as int),
-            ensures num_bytes == msum(cm, cc()) + msum(fm, fc()),
+                /*@C09*/ num_bytes == msum(cm, cc()) + ssum(own(vx_it2.seq()), fc(), vx_it2.index@ as int),
+            ensures /*@C09*/ num_bytes == msum(cm, cc()) + msum(fm, fc()),
 //@ before `num_bytes += file_info.num_bytes();`
             proof {
                 let s = own(vx_it2.seq()); let i = vx_it2.index@ as int;
